@@ -28,6 +28,9 @@ type planEntry struct {
 	Thorough int
 	Race     bool
 	Watchdog time.Duration
+	// Strace: the worker runs under strace (renames, flushes and the writes
+	// of the event log), and stracemon.go judges the order of what it saw
+	Strace bool
 }
 
 type driver struct {
@@ -317,6 +320,11 @@ func (d *driver) execOne(s runSpec) *runResult {
 	args := []string{"-s", "QUIT", "-k", "10", fmt.Sprint(int(wd.Seconds())), bin,
 		"-engine", s.pe.Engine, "-scenario", s.pe.Scenario, "-seed", fmt.Sprint(s.seed),
 		"-out", out, "-scratch", filepath.Join(d.scratch, "st-"+s.name), "-params", s.pe.Params}
+	if s.pe.Strace {
+		pre := []string{"-s", "QUIT", "-k", "10", fmt.Sprint(int(wd.Seconds())), "strace", "-f", "-qq", "-y", "-s", "900",
+			"-e", "trace=rename,renameat,renameat2,fsync,fdatasync,write", "-e", "signal=none", "-o", filepath.Join(out, "strace.txt")}
+		args = append(pre, args[5:]...)
+	}
 	cmd := exec.Command("timeout", args...)
 	stderr, _ := os.Create(filepath.Join(out, "stderr.txt"))
 	cmd.Stdout = stderr
@@ -343,6 +351,10 @@ func (d *driver) execOne(s runSpec) *runResult {
 	}
 	_ = os.WriteFile(filepath.Join(out, "cmdline.txt"), []byte(strings.Join(args[5:], " ")+"\n"), 0644)
 	d.analyze(res)
+	if s.pe.Strace {
+		analyzeStrace(filepath.Join(out, "strace.txt"), res.rep)
+		_ = os.Remove(filepath.Join(out, "strace.txt.raw"))
+	}
 	return res
 }
 
